@@ -14,6 +14,8 @@ pub mod c11b;
 pub mod c12;
 pub mod c13;
 pub mod c14;
+pub mod c20;
+pub mod c21;
 pub mod c27;
 pub mod c28;
 pub mod c32;
@@ -52,6 +54,8 @@ pub fn dispatch(ctx: &Ctx, replay: Option<&str>) -> i32 {
         "C12" => c12,
         "C13" => c13,
         "C14" => c14,
+        "C20" => c20,
+        "C21" => c21,
         "C27" => c27,
         "C28" => c28,
         "C29" => c29,
